@@ -92,6 +92,19 @@ def judge(case, out):
             if notified:
                 notified = False
     final_waiting = "WAITING" in toks
+    # None exactly when stop() was requested first: a stop() that completed before the previous iteration ended (ITER) - or before
+    # the loop's last stop-flag check (0:131) - is seen by the check that opens the next iteration, so block_on cannot go on to
+    # poll the future and return Some
+    if blockon and returned == "RET1":
+        polls_i = [i for i, t in enumerate(toks) if t == "POLL"]
+        last_poll = polls_i[-1] if polls_i else len(toks)
+        marks = [i for i, t in enumerate(toks[:last_poll]) if t in ("ITER", "0:131")]
+        reset_i = max([i for i, t in enumerate(toks) if t.endswith(":130")] + [-1])
+        if marks and reset_i >= 0:
+            stop_i = [i for i, t in enumerate(toks[:marks[-1]]) if t.endswith(":133") and i > reset_i]
+            if stop_i:
+                fails.append("block_on returned Some although stop() had been requested (step %d) before the iteration that polled the future to "
+                             "completion began (step %d)" % (stop_i[0] + 1, marks[-1] + 1))
     if returned == "RET0" and not stop_after_reset:
         fails.append("spurious: run()/block_on() returned (Ok / None) without a stop request since it began")
     if told and returned is None:
